@@ -116,6 +116,14 @@ impl Report {
         // replay files
         let dir = PathBuf::from(VERIF).join("replays").join(&self.prop);
         let _ = std::fs::create_dir_all(&dir);
+        // drop stale replay files of this tier
+        if let Ok(rd) = std::fs::read_dir(&dir) {
+            for e in rd.flatten() {
+                if e.file_name().to_string_lossy().starts_with(&format!("{}-", self.tier)) {
+                    let _ = std::fs::remove_file(e.path());
+                }
+            }
+        }
         let mut lines = vec![];
         for (i, v) in real.iter().enumerate() {
             let path = dir.join(format!("{}-{}.json", self.tier, i));
